@@ -237,6 +237,16 @@ def int_binop(op, a, b, w, signed, ex=None, pos=None):
         else:
             raise Unsupported('int op ' + op)
         return canon(r, w, signed)
+    # identities with a constant operand
+    if ca or cb:
+        cst, other = (a, b) if ca else (b, a)
+        if cst == 0:
+            if op in ('&', '*'):
+                return 0
+            if op in ('|', '^', '+') or (op in ('-', '<<', '>>', '&^') and cb):
+                return other
+        if op == '*' and cst == 1:
+            return other
     ga, gb = gs_from(a, w), gs_from(b, w)
     if op == '+' and ga is not None and gb is not None:
         return gs_add(ga, gb)
